@@ -436,7 +436,61 @@ func checkCompactionClamp(p *Prog, r *Roles, res *Result, rule string) {
 		default:
 			res.ok(rule, construct, p.pos(site.Pos()), "derives from the committed revision and from min(MinRevision()-1, .)")
 		}
+		// order of the two reads: the sequencer queues an unknown-outcome write BEFORE it commits its revision
+		// (C09-R1), so the reader has to look at the committed revision first and at the queue second; the other way
+		// round it can see the queue still empty and the revision already committed, and compacts the write away
+		{
+			rg := &fnRegion{root: impl, descend: func(g *ssa.Function) bool { return g.Pkg == impl.Pkg && g.Synthetic == "" }}
+			isCommittedRead := func(i ssa.Instruction) bool {
+				c, ok := i.(*ssa.Call)
+				if !ok || !(p.isCallToMethod(c, r.TSOGetRevision) || p.isCallToMethod(c, r.BGetCur)) {
+					return false
+				}
+				// only the read(s) the compaction revision is bounded by
+				return derivesFrom(p, handed, func(v ssa.Value) bool { return v == ssa.Value(c) }) || usedInFactsOn(c, revParam)
+			}
+			isMinRead := func(i ssa.Instruction) bool {
+				c, ok := i.(*ssa.Call)
+				return ok && p.isCallToMethod(c, minRev)
+			}
+			construct2 := funcName(impl) + ": committed revision read before the repair queue's minimum"
+			early, _, _ := rg.search(&frame{fn: impl}, impl.Blocks[0], 0, superOpts{
+				stop: func(i ssa.Instruction, _ *frame) bool { return isCommittedRead(i) },
+				bad:  func(i ssa.Instruction, _ *frame) bool { return isMinRead(i) },
+			})
+			nMin := len(rg.chainsIn(p, isMinRead))
+			switch {
+			case nMin == 0:
+				// reported by the clamp obligation above
+			case early != nil:
+				res.bad(rule, construct2, p.pos(early.Pos()), "the repair queue is examined before the committed revision is read: a write that is queued and committed in between is seen by neither bound (queue still empty, revision already committed) and the compaction removes the versions its repair needs")
+			default:
+				res.ok(rule, construct2, p.pos(site.Pos()), "on every path the committed revision is read before MinRevision()")
+			}
+		}
 	}
+}
+
+// usedInFactsOn: the result of call c is compared with v somewhere in c's function.
+func usedInFactsOn(c *ssa.Call, v ssa.Value) bool {
+	if v == nil {
+		return false
+	}
+	for _, b := range c.Parent().Blocks {
+		iff := ifOf(b)
+		if iff == nil {
+			continue
+		}
+		for _, cf := range expandFact(factOf(iff.Cond, true), 0) {
+			if cf.X == nil || cf.Y == nil {
+				continue
+			}
+			if (resolve(cf.X) == ssa.Value(c) && resolve(cf.Y) == v) || (resolve(cf.Y) == ssa.Value(c) && resolve(cf.X) == v) {
+				return true
+			}
+		}
+	}
+	return false
 }
 
 // checkRetryPop: the queue head is not popped on the path where the repair could not read the key (rev == 0 && err != nil).
